@@ -327,7 +327,15 @@ func (k *Kernel) Run(hook func()) string {
 			idx = 0
 			k.tape.Draw(1)
 		} else {
-			total := len(P)*k.ReleaseWeight + k.AdvanceWeight
+			advW := k.AdvanceWeight
+			for _, pg := range P {
+				if pg.ev.Point == "sim.yield" {
+					// a statement-level yield models an instantaneous preemption, not a sleep: the clock stands still
+					advW = 0
+					break
+				}
+			}
+			total := len(P)*k.ReleaseWeight + advW
 			d := k.tape.Draw(total)
 			if d >= len(P)*k.ReleaseWeight {
 				q := advanceQuanta[k.tape.Draw(len(advanceQuanta))]
